@@ -613,7 +613,7 @@ func search(r *vh.Run) {
 			cjobs = append(cjobs, j)
 		}
 	}
-	again := runJobs(tmp, cjobs, 6, time.Duration(r.Pick(20, 60))*time.Second, nil)
+	again := runJobs(tmp, cjobs, 12, time.Duration(r.Pick(15, 60))*time.Second, nil)
 	got := map[string]finding{}
 	for _, a := range again {
 		got[a.job.id] = a
